@@ -63,6 +63,13 @@ def proofs(tier, workroot):
               functions=['parens.cpp:do_parens', 'parens.cpp:do_parens_assign', 'parens.cpp:do_parens_return'],
               note='size_t check_level-- may wrap by design of the code (unsigned); chunk walks bounded by the navigation fuel',
               mutants=[('assign_gate_dropped', r'if \(options::mod_full_paren_assign_bool\(\)\)', 'if (true)', 'postcondition')]),
+        Proof('insert_vbrace', impl='contracts/C04/vbrace.impl.cpp', spec='contracts/C04/vbrace.spec.c', harness='h_insert_vbrace', plain=True, no_contract=True, canaries=3, rules={},
+              nondet_static='.*(g_nav_fuel).*', unwind=9, expect=['postcondition: insert_vbrace'], drop_flags=['--conversion-check'],
+              functions=['brace_cleanup.cpp:insert_vbrace'],
+              assumed=['chunk navigation: an arbitrary chunk per step, at most 7 steps (navigation fuel)', 'tokenizer invariant: the chunk after a // comment is its newline or the end of the list'],
+              note='the two backward walks are bounded by the navigation fuel (complete unwinding, unwinding assertions on)',
+              mutants=[('cpp_comment_guard_dropped', r'if \(ref->Is\(CT_COMMENT_CPP\)\)', 'if (false)', 'postcondition'),
+                       ('close_brace_elsewhere', r'return\(chunk\.CopyAndAddAfter\(pc\)\);', 'return(chunk.CopyAndAddAfter(pc->GetPrev()));', 'postcondition')]),
     ]
     return [p] + gates + [q for q in nlguard_proofs.all_proofs() if q.name in ('SafeToDeleteNl', 'convert_brace')]
 
@@ -71,7 +78,7 @@ EXPLANATION = ('Kernel of C04 (and C06-K4, C09-K6, C12-K3): the real driver uncr
                '(rewrite_infinite_loops, remove_extra_semicolons, remove_extra_returns, change_int_types, remove_duplicate_include, pawn_scrub_vsemi, sort_imports, '
                'add_long_closebrace_comment, add_long_preprocessor_conditional_block_comment) runs only if the option documented to request it is set; with all of '
                'them at default none runs. output_text runs exactly once and last; an embedded NUL is refused first; encoding/BOM policy; check accounting.')
-K = ['K3 do_braces / do_parens / do_parens_assign / do_parens_return (called unconditionally by the driver): brace removal, brace insertion, if-chain rewriting, case braces, case-break / case-return moves and added parentheses each happen only under the option(s) documented to request them',
+K = ['K4 insert_vbrace (where the braces added by mod_full_brace_*=add come to stand): at most one chunk is added, the close brace directly after the statement end, the open brace after a real chunk that is never a // comment', 'K3 do_braces / do_parens / do_parens_assign / do_parens_return (called unconditionally by the driver): brace removal, brace insertion, if-chain rewriting, case braces, case-break / case-return moves and added parentheses each happen only under the option(s) documented to request them',
      'K2 convert_brace (brace -> virtual brace, used by every brace-removing option): only brace chunks are converted, at most the adjacent newline is deleted and only when SafeToDeleteNl() allows it (otherwise the statement would move into a // comment)',
      'K1 uncrustify_file: gating of the nine code-modifying passes the driver calls', 'C06-K4 output once and last; embedded-NUL scan', 'C09-K6 encoding/BOM policy', 'C12-K3 check_fail_cnt']
 G = [     'what each pass does once it runs (brace pairing, can_remove_braces, sorting permutes whole lines, balanced brackets): NOT proved; the mod_full_brace_if=remove defect quoted in the property lives there and is NOT detectable by this kernel',
@@ -80,4 +87,4 @@ G = [     'what each pass does once it runs (brace pairing, can_remove_braces, s
 
 sys.path.insert(0, os.path.join(os.path.dirname(os.path.abspath(__file__)), '..', '..', 'tools'))
 import replay_lib  # noqa: E402
-REPLAY = replay_lib.make_replay(replay_lib.scenario_gating_default, replay_lib.scenario_encoding, replay_lib.scenario_check_truth)
+REPLAY = replay_lib.make_replay(replay_lib.scenario_gating_default, replay_lib.scenario_vbrace_comment, replay_lib.scenario_encoding, replay_lib.scenario_check_truth)
